@@ -185,6 +185,17 @@ func (ex *Exec) execInstr(b *ssa.BasicBlock, st *State, in ssa.Instruction) {
 				// and the guard does nothing; panicking executions are not modelled (they end at the panic)
 				vc.note("deferred recover guard skipped on non-panicking paths")
 				vc.assumed["panicking executions are not followed into deferred recover guards"] = true
+				if ex.con != nil && ex.inlineDepth == 0 && !ex.recoverNoted {
+					// a recovered panic leaves the function early with none of the contract's clauses established: the
+					// contract has to say so (option recovers, listed as an assumption), otherwise a guard that appears
+					// in a function whose callers rely on its clauses is reported
+					ex.recoverNoted = true
+					if ex.con.Recovers {
+						vc.assumed["A12: "+ex.con.Name+" recovers panics (option recovers): its clauses are not established when a callee panics"] = true
+					} else {
+						vc.oblige("closure", "recover:"+ex.conName(), TTrue, TFalse, ex.pos(d.call.Pos())).SetNote("the function recovers panics in a deferred guard; on such an exit none of the clauses of its contract is established (declare `option recovers` to accept that as an assumption)")
+					}
+				}
 				continue
 			}
 			ex.execCommon(st, d.call.Common(), nil, d.call.Pos(), true)
